@@ -20,7 +20,7 @@ import (
 	"verifharness/lib/vlib"
 )
 
-const rule = "programs with every argument buffer poisoned after each call and every DB.Get/Transaction.Get result scribbled over (full capacity) or held-then-scribbled, iterator key/value re-checked before each move, results vs Go map; all cells of {pool on/off} x {block cache on/off/tiny/no-LRU} x {none,snappy} x {write buffer, frozen buffer, level 0, deeper level} enumerated; non-trivial = the program contains >=1 Get answered from a block that was already in the block cache"
+const rule = "programs with every argument buffer poisoned after each call and every DB.Get/Transaction.Get result scribbled over (full capacity) or held-then-scribbled, iterator key/value re-checked before each move, results vs Go map; all cells of {pool on/off} x {block cache on/off/tiny/no-LRU} x {none,snappy} x {write buffer, frozen buffer, level 0, deeper level} enumerated; non-trivial = the program contains >=1 Get answered from a block that was already in the block cache; second pass: merge storms (2..16 writers overwrite their key/value/batch buffers the moment Put/Delete/Write returns, all values read back after each round and after journal replay; non-trivial = >=1 call shared another call's journal record) and backward walks (DB/Snapshot/Transaction iterators moved Last/Prev/Seek+Prev/First/Next under compactions, value slices overwritten after every movement, slices kept across Release; non-trivial = >=1 position checked after a backward movement)"
 
 type cell struct {
 	nopool bool
@@ -261,6 +261,10 @@ func childMain(a vlib.Args, tok map[string]string) {
 	}
 
 	perCell, nrand := plan(a, tok)
+	_, only2 := tok["only2"] // run the second pass only (used when measuring which oracle catches a mutation)
+	if only2 {
+		perCell = 0
+	}
 	cells := allCells()
 	tStart := time.Now()
 	root := vlib.NewRNG(a.Seed)
@@ -459,6 +463,9 @@ func childMain(a vlib.Args, tok map[string]string) {
 	nk := 3
 	if a.Thorough() {
 		nk = 20
+	}
+	if only2 {
+		nk = 0
 	}
 	type kjob struct {
 		cfg Cfg
